@@ -21,6 +21,15 @@ except ImportError:  # pragma: no cover
     B = None
 
 
+def fixture_once(ctx, rules):
+    """zero-count rules are proved non-blind against the positive fixture, once per check run"""
+    if getattr(ctx, "_fixture_done", None) == tuple(rules):
+        return
+    from . import fixture
+    fixture.must_match(ctx, rules)
+    ctx._fixture_done = tuple(rules)
+
+
 # ---- rule bundles --------------------------------------------------------------------------
 def c01(ctx, v):
     O.r_restore(ctx, v, PQ)
@@ -92,6 +101,7 @@ def r_absent(ctx, v):
 
 
 def c04(ctx, v):
+    fixture_once(ctx, ["R-UNSAFEKINDS"])
     T.r_tables(ctx, v, want=("R-GROW",))
     T.r_repair(ctx, v)
     D.r_writers(ctx, v)
@@ -120,6 +130,7 @@ def c06(ctx, v):
 
 
 def c07(ctx, v):
+    fixture_once(ctx, ["R-HINT"])
     M.r_hint(ctx, v)
     M.r_strat(ctx, v)
     only = lambda root, d: d.kind == "BULK"
@@ -147,6 +158,7 @@ def c09(ctx, v):
 
 
 def c10(ctx, v):
+    fixture_once(ctx, ["R-UNSAFEKINDS"])
     T.r_tables(ctx, v, want=("R-TORN",))
     D.r_dropless(ctx, v)
     D.r_unsafekinds(ctx, v)
@@ -193,10 +205,12 @@ def c16(ctx, v):
 
 def c17(ctx, v):
     D.r_capfwd(ctx, v)
+    fixture_once(ctx, ["R-CAPFWD"])
 
 
 def c18(ctx, v):
     D.r_nohash(ctx, v)
+    fixture_once(ctx, ["R-NOHASH"])
 
 
 TRUST_RUSTC = "rustc type checking, trait resolution and MIR construction (the analysis reads what the compiler compiles)"
